@@ -14,6 +14,7 @@ impl VarOrder {
     pub open spec fn pos(self, v: VarLabel) -> int { self.var_to_pos[v.0 as int] as int }
     pub open spec fn has(self, v: VarLabel) -> bool { (v.0 as int) < self.var_to_pos.len() }
     /// the two maps are mutually inverse permutations of 0..n
+    #[verifier::opaque]
     pub open spec fn wf(self) -> bool {
         &&& self.var_to_pos.len() == self.pos_to_var.len()
         &&& forall|i: int| 0 <= i < self.var_to_pos.len() ==>
@@ -33,6 +34,8 @@ impl VarOrder {
         ensures
             r.wf(), r.n() == order.len(),
             forall|j: int| 0 <= j < order.len() ==> r.pos(#[trigger] order@[j]) == j,
+//%% @entry
+        proof { reveal(VarOrder::wf); }
 //%% @loop 1 /^for i in 0\.\.order\.len\(\)$/
             invariant
                 v.len() == order.len(), pos_to_var.len() == i,
@@ -91,6 +94,8 @@ impl VarOrder {
         ensures
             r == a || r == b,
             self.opos(r.var_s()) <= self.opos(a.var_s()), self.opos(r.var_s()) <= self.opos(b.var_s()),
+//%% @entry
+        proof { reveal(VarOrder::wf); }
 //%% end
 
 //%% extract src/repr/var_order.rs :: impl VarOrder :: fn first_essential
@@ -106,6 +111,8 @@ impl VarOrder {
             Some(r) == a.var_s() || Some(r) == b.var_s() || Some(r) == c.var_s(),
             self.has(r),
             self.pos(r) <= self.opos(a.var_s()), self.pos(r) <= self.opos(b.var_s()), self.pos(r) <= self.opos(c.var_s()),
+//%% @entry
+        proof { reveal(VarOrder::wf); }
 //%% end
 
 //%% extract src/repr/var_order.rs :: impl VarOrder :: fn new_last
@@ -117,5 +124,7 @@ impl VarOrder {
             r.0 == old(self).n(), final(self).pos(r) == old(self).n(),
             // every old label keeps its position
             forall|v: VarLabel| old(self).has(v) ==> final(self).has(v) && #[trigger] final(self).pos(v) == old(self).pos(v),
+//%% @entry
+        proof { reveal(VarOrder::wf); }
 //%% end
 }
